@@ -2,6 +2,8 @@
 
 FOREST = {'name': 'forest', 'shards': {'quick': 4, 'thorough': 16}, 'seeds': {'quick': 1, 'thorough': 2}}
 FORESTEXH = {'name': 'forestexh', 'shards': {'quick': 4, 'thorough': 16}}
+ENC = {'name': 'encodings', 'shards': {'quick': 6, 'thorough': 16}, 'seeds': {'quick': 1, 'thorough': 2}}
+UNDO = {'name': 'undoredo', 'shards': {'quick': 6, 'thorough': 16}, 'seeds': {'quick': 1, 'thorough': 2}}
 ARITH = {'name': 'arith', 'shards': {'quick': 12, 'thorough': 16}}
 
 COMMON_TRUST = [
@@ -81,6 +83,24 @@ PROPS = {
         'lean_modules': [],
         'theorems': [],
         'rule': 'every Stump.Update replayed on the Lean model of stump.go (all UpdateData fields compared)',
+        'trusted': COMMON_TRUST,
+        'assumptions': [],
+    },
+    'C05': {
+        'families': [ENC],
+        'kinds': ['roots', 'modifyfail', 'undofail', 'stumpupdate', 'enc:*'],
+        'lean_modules': [],
+        'theorems': [],
+        'rule': 'every block applied to Stump, Pollard and MapPollard (full/partial, TotalRows configs) in a non-canonical encoding that Verify accepts (permuted target/hash pairs, trailing junk proof hashes, proofs assembled by AddProof / GetProofSubset); roots and leaf counts compared with the specification forest with exactly the named leaves removed; Stump.Update replayed on its Lean model',
+        'trusted': COMMON_TRUST,
+        'assumptions': [],
+    },
+    'C06': {
+        'families': [UNDO, FORESTEXH],
+        'kinds': ['roots', 'pos', 'hash', 'prove', 'count', 'cachedcount', 'modifyfail', 'undofail'],
+        'lean_modules': [],
+        'theorems': [],
+        'rule': 'undo to depth 1..history length and redo on another branch; after every undo roots, leaf count, position of every leaf ever added, every position read and proofs of live subsets compared with the specification forest at the earlier height',
         'trusted': COMMON_TRUST,
         'assumptions': [],
     },
